@@ -228,3 +228,78 @@ QBE_SUMMARIES = {
     'ferret_std_io_Println': ferret_std_io_Println,
     'ferret_std_io_Print': ferret_std_io_Print,
 }
+
+
+# ------------------------------------------------------------------------------------------------ wide integers
+# Contracts for the 128/256-bit entry points of runtime/core/bigint.c (discharged against the C source by C16):
+# values live in memory as little-endian limbs; from_string on a CONCRETE text = its value mod 2^N.
+def _wide_from_string(bits):
+    def f(ex, st, a, work):
+        txt = st.mem.read_cstr(st, a[0])
+        if txt is None:
+            raise Inconclusive('from_string on a non-concrete text')
+        t = txt.decode().strip().replace('_', '')
+        neg = t.startswith('-')
+        if neg or t.startswith('+'):
+            t = t[1:]
+        base = 10
+        if t[:2].lower() == '0x':
+            base, t = 16, t[2:]
+        elif t[:2].lower() == '0o':
+            base, t = 8, t[2:]
+        elif t[:2].lower() == '0b':
+            base, t = 2, t[2:]
+        try:
+            v = int(t, base) if t else 0
+        except ValueError:
+            raise Inconclusive('from_string on %r' % txt)
+        if neg:
+            v = -v
+        st.mem.store(st, a[1], bv(v % (1 << bits), bits), bits // 8)
+        return None
+    return f
+
+
+def _wide_from64(bits, signed):
+    def f(ex, st, a, work):
+        v = z3.SignExt(bits - 64, a[0]) if signed else z3.ZeroExt(bits - 64, a[0])
+        st.mem.store(st, a[1], v, bits // 8)
+        return None
+    return f
+
+
+def _wide_to64(bits):
+    def f(ex, st, a, work):
+        return z3.Extract(63, 0, st.mem.load(st, a[0], bits // 8))
+    return f
+
+
+def _wide_cmp(bits, signed, op):
+    def f(ex, st, a, work):
+        x = st.mem.load(st, a[0], bits // 8)
+        y = st.mem.load(st, a[1], bits // 8)
+        c = {'eq': lambda: x == y, 'lt': lambda: (x < y) if signed else z3.ULT(x, y), 'gt': lambda: (x > y) if signed else z3.UGT(x, y)}[op]()
+        return z3.If(c, bv(1, 32), bv(0, 32))
+    return f
+
+
+def _wide_bin(bits, op):
+    def f(ex, st, a, work):
+        x = st.mem.load(st, a[0], bits // 8)
+        y = st.mem.load(st, a[1], bits // 8)
+        r = {'add': lambda: x + y, 'sub': lambda: x - y, 'and': lambda: x & y, 'or': lambda: x | y, 'xor': lambda: x ^ y}[op]()
+        st.mem.store(st, a[2], r, bits // 8)
+        return None
+    return f
+
+
+for _T, (_bits, _signed) in {'i128': (128, True), 'u128': (128, False), 'i256': (256, True), 'u256': (256, False)}.items():
+    QBE_SUMMARIES['ferret_%s_from_string_ptr' % _T] = _wide_from_string(_bits)
+    QBE_SUMMARIES['ferret_%s_from_i64_ptr' % _T] = _wide_from64(_bits, True)
+    QBE_SUMMARIES['ferret_%s_from_u64_ptr' % _T] = _wide_from64(_bits, False)
+    QBE_SUMMARIES['ferret_%s_to_i64_ptr' % _T] = _wide_to64(_bits)
+    QBE_SUMMARIES['ferret_%s_to_u64_ptr' % _T] = _wide_to64(_bits)
+    for _op in ('eq', 'lt', 'gt'):
+        QBE_SUMMARIES['ferret_%s_%s_ptr' % (_T, _op)] = _wide_cmp(_bits, _signed, _op)
+    for _op in ('add', 'sub', 'and', 'or', 'xor'):
+        QBE_SUMMARIES['ferret_%s_%s_ptr' % (_T, _op)] = _wide_bin(_bits, _op)
